@@ -64,6 +64,7 @@ class Profile(object):
         self.p_reconstrain = 0.3     # constraint on a type reference
         self.p_big_size = 0.05
         self.p_components_of = 0.0
+        self.p_twin_member = 0.12     # reuse (member name, referenced type) of an earlier member with another DEFAULT/OPTIONAL
         self.tag_defaults = [None, 'AUTOMATIC', 'AUTOMATIC', 'IMPLICIT', 'EXPLICIT']
         self.high_tags = False
         self.default_kinds = {'BOOLEAN', 'INTEGER', 'ENUMERATED', 'BIT STRING', 'OCTET STRING',
@@ -105,6 +106,7 @@ class Gen(object):
         self.counter = 0
         self.features = {}
         self.at_top = False
+        self.twins = []
 
     def feat(self, name):
         self.features[name] = self.features.get(name, 0) + 1
@@ -578,6 +580,20 @@ class Gen(object):
 
     def gen_comp(self, used, depth, choice, first=False, addition=False):
         rnd, p = self.rnd, self.p
+        if not choice and self.twins and rnd.random() < p.p_twin_member:
+            # the same member identifier referencing the same named type as in an earlier type,
+            # with its own DEFAULT / OPTIONAL (exercises the compiled-type cache key)
+            tname, tref, tmod = rnd.choice(self.twins)
+            if tname not in used and tmod == self.cur_index:
+                used.add(tname)
+                c = Comp(tname, T('REF', ref=tref))
+                x = rnd.random()
+                if x < 0.6:
+                    self.maybe_default(c)
+                elif x < 0.8:
+                    c.optional = True
+                self.feat('twin_member')
+                return c
         name = self.ident(used)
         optional = False
         if not choice:
@@ -588,8 +604,9 @@ class Gen(object):
         c = Comp(name, ct, optional=optional)
         if not choice and not optional and rnd.random() < p.p_default:
             self.maybe_default(c)
-        if rnd.random() < p.p_type_tag * 0.5 and ct.tag is None and ct.kind == 'REF':
-            pass
+        if (ct.kind == 'REF' and ct.tag is None and ct.rng is None and ct.size is None and len(self.twins) < 12
+                and any(nm == ct.ref for mi, nm in self.type_pool)):       # completed types only: no new cycles
+            self.twins.append((name, ct.ref, self.cur_index))
         return c
 
     def maybe_default(self, c):
